@@ -1,9 +1,9 @@
 package main
 
 import (
-	"unsafe"
 	"context"
 	"fmt"
+	"unsafe"
 
 	"k3l.io/go-eigentrust/pkg/sparse"
 )
